@@ -147,20 +147,50 @@ func (s *smtpServer) serve(c net.Conn) {
 	}
 }
 
-// logTap turns what the LogMailer writes into mailbox deliveries.
-type logTap struct{ mail *mailbox }
+// logTap is the log the LogMailer writes to: an append-only sink whose Write calls are atomic
+// (as a log file's are) and nothing more.  A reader of the log cuts it at the end-of-message
+// boundary line and delivers each entry to the recipient it names; an entry that is not one
+// whole message (another message's bytes in between) is delivered as torn to everyone named in it.
+type logTap struct {
+	mail *mailbox
+	mu   *sync.Mutex
+	buf  *bytes.Buffer
+}
 
-var toRe = regexp.MustCompile(`(?m)^To: (.*)\r?$`)
+var toRe = regexp.MustCompile(`(?m)^To: (.*?)\r?$`)
+
+const logEnd = "==--\r\n"
 
 func (l logTap) Write(p []byte) (int, error) {
-	s := string(p)
-	if m := toRe.FindStringSubmatch(s); m != nil {
-		for _, rc := range strings.Split(m[1], ",") {
-			rc = strings.TrimSpace(rc)
-			if i := strings.Index(rc, "<"); i >= 0 {
-				rc = strings.Trim(rc[i:], "<> ")
+	l.mu.Lock()
+	l.buf.Write(p)
+	var entries []string
+	for {
+		b := l.buf.String()
+		i := strings.Index(b, logEnd)
+		if i < 0 {
+			break
+		}
+		entries = append(entries, b[:i+len(logEnd)])
+		l.buf.Reset()
+		l.buf.WriteString(b[i+len(logEnd):])
+	}
+	l.mu.Unlock()
+	for _, s := range entries {
+		ms := toRe.FindAllStringSubmatch(s, -1)
+		whole := len(ms) == 1 && strings.HasPrefix(s, "To: ") && strings.Count(s, "\nSubject: ") == 1
+		for _, m := range ms {
+			for _, rc := range strings.Split(m[1], ",") {
+				rc = strings.TrimSpace(rc)
+				if i := strings.Index(rc, "<"); i >= 0 {
+					rc = strings.Trim(rc[i:], "<> ")
+				}
+				if whole {
+					l.mail.box(rc) <- s
+				} else {
+					l.mail.box(rc) <- "TORN LOG ENTRY"
+				}
 			}
-			l.mail.box(rc) <- s
 		}
 	}
 	return len(p), nil
@@ -261,7 +291,7 @@ func New(mailer string, jsonMode bool) (*Inst, error) {
 		in.smtp = s
 		ab.Config.Core.Mailer = defaults.NewSMTPMailer(s.ln.Addr().String(), nil)
 	default:
-		ab.Config.Core.Mailer = defaults.NewLogMailer(logTap{in.Mail})
+		ab.Config.Core.Mailer = defaults.NewLogMailer(logTap{in.Mail, &sync.Mutex{}, &bytes.Buffer{}})
 	}
 	ab.Config.Mail.From = "auth@site.test"
 	ab.Config.Modules.BCryptCost = bcrypt.MinCost
@@ -326,6 +356,7 @@ func New(mailer string, jsonMode bool) (*Inst, error) {
 	mux.Handle("/r/", authboss.Middleware2(ab, authboss.RequireNone, authboss.RespondRedirect)(probe))
 	mux.Handle("/", confirm.Middleware(ab)(lock.Middleware(ab)(probe)))
 	var h http.Handler = mux
+	h = authboss.ModuleListMiddleware(ab)(h) // as in the documented middleware stack
 	h = expire.Middleware(ab)(h)
 	h = remember.Middleware(ab)(h)
 	in.Top = ab.LoadClientStateMiddleware(h)
